@@ -288,12 +288,29 @@ Denote(args) ==
    kwargs |-> DKws(args, 1) \o [j \in 1..Len(ps) |-> E(Name(ps[j]), D(AggOf(args, 1, ps[j])))],
    flags  |-> {args[i].n : i \in {j \in 1..Len(args) : args[j].t = "flag"}}]
 
+(* ------------------------------ admissible outcomes ------------------- *)
+\* Whitespace after * / ** is documented for a *variable* operand (`[ * spread ]`); before a
+\* literal operand (`[* [1]]`, `{** {"a": 1}}`) nothing is said.  There the tag may also be
+\* refused with TemplateSyntaxError; if it is accepted it must denote the same values.
+RECURSIVE HasLitSpread(_)
+HasLitSpread(v) ==
+  CASE v.t \in {"list", "dict"} -> \E i \in 1..Len(v.items) : HasLitSpread(v.items[i])
+    [] v.t = "spread" -> (v.tok \in {"*", "**"} /\ v.v.t \in {"list", "dict"}) \/ HasLitSpread(v.v)
+    [] v.t = "pair"   -> HasLitSpread(v.k) \/ HasLitSpread(v.v)
+    [] OTHER          -> FALSE
+WsBeforeLiteralOperand(args, st) ==
+  st.wst # "" /\ \E i \in 1..Len(args) : args[i].t # "flag" /\ HasLitSpread(args[i].v)
+Outcomes(args, st) ==
+  IF Invalid(args) THEN {"tse"}
+  ELSE IF WsBeforeLiteralOperand(args, st) THEN {"values", "tse"} ELSE {"values"}
+
 (* ------------------------------ named deviations ---------------------- *)
 \* What the code under test is known to do instead of Denote on specific shapes (see
 \* /verif/KNOWN_FINDINGS.txt).  A deviation never makes a case pass: an observed outcome that
 \* equals a deviation's prediction is reported under the deviation's name (a finding key),
-\* anything else as a plain violation.  outcome: "values" (expect holds the received values),
-\* "tse" (TemplateSyntaxError) or "exc:<ExceptionClass>"; path: "both" or "comp".
+\* anything else as a plain violation.  outcomes: the set of predicted outcomes - "values"
+\* (expect holds the received values), "tse" (TemplateSyntaxError) or "exc:<ExceptionClass>";
+\* path: "both" or "comp".
 FlagNames == {"only"}
 NoValues == [args |-> <<>>, kwargs |-> <<>>, flags |-> {}]
 IsKwish(a) == a.t \in {"kw", "agg"} \/ (a.t = "spread" /\ ~IsListy(a.v))
@@ -308,7 +325,7 @@ DevFlag(args) ==
   LET as == DevFlagArgs(args)
       twice == \E i \in 1..Len(as), j \in 1..Len(as) : i < j /\ as[i].t = "flag" /\ as[j] = as[i] IN
   [name |-> "kw-value-named-like-flag:taken-as-flag", path |-> "both",
-   outcome |-> IF twice THEN "tse" ELSE "values",
+   outcomes |-> IF twice THEN {"tse"} ELSE {"values"},
    expect |-> IF twice THEN NoValues ELSE Denote(as)]
 
 \* ...value|filter at top level: the filter chain's value is passed whole as one positional argument
@@ -317,9 +334,12 @@ DevSpreadApplies(args) == \E i \in 1..Len(args) : SpreadFilt(args[i])
 DevSpreadArgs(args) == [i \in 1..Len(args) |-> IF SpreadFilt(args[i]) THEN Pos(args[i].v) ELSE args[i]]
 DevSpread(args) ==
   LET as == DevSpreadArgs(args)
-      pk == PosAfterKw(as) IN
+      \* (aggregated keywords are moved behind everything else before the order is checked)
+      strict(a) == a.t = "kw" \/ (a.t = "spread" /\ ~IsListy(a.v))
+      pk == \E i \in 1..Len(as), j \in 1..Len(as) : i < j /\ strict(as[i]) /\ IsPosish(as[j]) IN
   [name |-> "top-level-spread-with-filter:passed-unspread", path |-> "both",
-   outcome |-> IF pk THEN "exc:TypeError" ELSE "values",
+   \* a positional after a keyword is refused: TypeError, or SyntaxError after a non-identifier key
+   outcomes |-> IF pk THEN {"exc:TypeError", "exc:SyntaxError"} ELSE {"values"},
    expect |-> IF pk THEN NoValues ELSE Denote(as)]
 
 \* {% component %} only: a translation string that is not a whitespace-delimited word of its own
@@ -333,11 +353,43 @@ HasTrans(v) ==
     [] OTHER          -> FALSE
 DevTransApplies(args) == \E i \in 1..Len(args) : args[i].t # "flag" /\ HasTrans(args[i].v)
 DevTrans(args) == [name |-> "component-tag:translation-string-glued-to-other-syntax:StopIteration", path |-> "comp",
-                   outcome |-> "exc:StopIteration", expect |-> NoValues]
+                   outcomes |-> {"exc:StopIteration"}, expect |-> NoValues]
 
-Devs(args) == (IF DevFlagApplies(args) THEN <<DevFlag(args)>> ELSE <<>>)
+\* both of the above in one argument list
+DevBoth(args) ==
+  LET d == DevSpread(DevFlagArgs(args))  f == DevFlag(args) IN
+  [name |-> f.name \o "+" \o d.name, path |-> "both",
+   outcomes |-> IF f.outcomes = {"tse"} THEN {"tse"} ELSE d.outcomes,
+   expect |-> IF f.outcomes = {"tse"} THEN NoValues ELSE d.expect]
+
+\* deviations that can also hit an argument list that must be refused
+DevsInvalid(args) == IF \E i \in 1..Len(args) : args[i].t # "flag" /\ HasTrans(args[i].v) THEN <<DevTrans(args)>> ELSE <<>>
+Devs(args) == IF Invalid(args) THEN DevsInvalid(args) ELSE
+              (IF DevFlagApplies(args) THEN <<DevFlag(args)>> ELSE <<>>)
               \o (IF DevSpreadApplies(args) THEN <<DevSpread(args)>> ELSE <<>>)
+              \o (IF DevFlagApplies(args) /\ DevSpreadApplies(args) THEN <<DevBoth(args)>> ELSE <<>>)
               \o (IF DevTransApplies(args) THEN <<DevTrans(args)>> ELSE <<>>)
+
+(* ------------------------------ raw input space (C12) ----------------- *)
+\* Syntax-relevant symbols of a tag's content: quotes, brackets, braces, colon, comma, pipe,
+\* equals, spread tokens (** is * twice), _( and ), backslash, whitespace, the closing tag
+\* delimiter and a letter.  C12 quantifies over all strings of these.
+TagAlphabet == {"'", "\"", "[", "]", "{", "}", ":", ",", "|", "=", "...", "*", "_(", ")", "\\", " ", "%}", "a"}
+\* Symbols of a template source: every tag delimiter, openers of django-components tags,
+\* quotes, backslash, newline, percent, a word.
+TplAlphabet == {"{% vfprobe ", "{% endvfprobe %}", "{% component 'vf_probe_c12' ", "%}", "{{", "}}", "{#", "#}",
+                "\"", "'", "\\", "\n", "%", "a "}
+\* The only admissible outcomes of parsing any string (termination itself is observed on the
+\* real code, not modelled).
+ParseOutcomes == {"ok", "tse"}
+\* One-symbol mutations of a text (position p; symbol c)
+MutIns(txt, p, c) == SubSeq(txt, 1, p - 1) \o <<c>> \o SubSeq(txt, p, Len(txt))     \* p \in 1..Len(txt)+1
+MutDel(txt, p)    == SubSeq(txt, 1, p - 1) \o SubSeq(txt, p + 1, Len(txt))           \* p \in 1..Len(txt)
+MutRep(txt, p, c) == [txt EXCEPT ![p] = c]                                            \* p \in 1..Len(txt)
+Mutated(txt, m) == CASE m.kind = "ins" -> MutIns(txt, m.p, m.c)
+                     [] m.kind = "del" -> MutDel(txt, m.p)
+                     [] m.kind = "rep" -> MutRep(txt, m.p, m.c)
+                     [] OTHER          -> txt
 
 (* ------------------------------ documented examples ------------------- *)
 \* parse_tag docstring, "Invalid syntax" (and tests/test_tag_parser.py test_spread_onto_key).
